@@ -71,6 +71,7 @@ func (t *T0x1210) Parse(jtMsg *jt808.JTMessage) error {
 		return protocol.ErrBodyLengthInconsistency
 	}
 	start := cursor
+	t.T0x1210AlarmItemList = nil
 	for i := 0; i < int(t.AttachCount); i++ {
 		if len(body) < start+1 {
 			return protocol.ErrBodyLengthInconsistency
